@@ -166,6 +166,8 @@ def start_recipe(r: random.Random, pool="default", xform_rate=0.0):
             rec["xform"].append({"kind": "renumber", "family": fam, "mode": r.choice(["odd", "shift", "sparse", "reverse"]), "seed": r.randint(0, 99)})
     if r.random() < xform_rate * 0.4:
         rec.setdefault("xform", []).insert(0, {"kind": "unlist_slide", "k": r.randint(0, 5)})
+    if r.random() < xform_rate * 0.3:
+        rec.setdefault("xform", []).insert(0, {"kind": "layout_logo", "k": r.randint(0, 11), "seed": r.randint(0, 9)})   # a template with a logo
     if r.random() < xform_rate * 0.4:
         rec.setdefault("xform", []).append({"kind": "respell_targets", "style": r.choice(["mixed", "abs", "dot", "updown"]), "seed": r.randint(0, 99)})
     if r.random() < xform_rate * 0.3:
